@@ -57,7 +57,11 @@ mod verif_kani_atomic {
         kani::assume(v & mask == v);
         let a = unsafe { AtomicBitFieldVec::<u64, [AtomicU64; 2]>::from_raw_parts(words, width, len) };
         if write { a.set_atomic(i, v, Ordering::Relaxed); } else { let _ = a.get_atomic(i, Ordering::Relaxed); }
+        must_not_reach();
     }
+    /// `should_panic` alone only asks for SOME panicking execution: a call that returns normally runs into this non-panic failure
+    /// (null dereference), which makes the harness fail, so EVERY execution has to panic before it
+    fn must_not_reach() { let p: *const u8 = core::ptr::null(); let _x = unsafe { *p }; }
     /// the same over an EMPTY backend (length 0): any access must panic before touching storage
     #[kani::proof]
     #[kani::unwind(2)]
@@ -70,6 +74,7 @@ mod verif_kani_atomic {
         kani::assume(v & mask == v);
         let a = unsafe { AtomicBitFieldVec::<u64, [AtomicU64; 0]>::from_raw_parts(words, width, 0) };
         if write { a.set_atomic(i, v, Ordering::Relaxed); } else { let _ = a.get_atomic(i, Ordering::Relaxed); }
+        must_not_reach();
     }
     atomic_harness!(atomic_bfv_u64, u64, AtomicU64);
     atomic_harness!(atomic_bfv_u8, u8, AtomicU8);
